@@ -132,6 +132,23 @@ class Interp:
         if isinstance(s, ast.Expr) and isinstance(s.value, ast.Call):
             self.call(s.value, sink, subst or {})
             return
+        if isinstance(s, ast.For) and isinstance(s.iter, ast.Call) and norm(s.iter.func) == "range" and len(s.iter.args) == 1 \
+                and isinstance(s.iter.args[0], ast.Constant) and isinstance(s.iter.args[0].value, int) \
+                and 0 <= s.iter.args[0].value <= 8 and isinstance(s.target, ast.Name):
+            # a loop over a small literal range is unrolled (e.g. `for j in range(3): ... c[j].lc ...`)
+            import copy
+            for jv in range(s.iter.args[0].value):
+                alias = {s.target.id: ast.Constant(value=jv)}
+                for b in s.body:
+                    b2 = _SubstNames(alias).visit(copy.deepcopy(b))
+                    ast.fix_missing_locations(b2)
+                    if isinstance(b2, ast.Assign) and len(b2.targets) == 1 and isinstance(b2.targets[0], ast.Name) \
+                            and self.poly(b2.value) is not None and not isinstance(b2.value, ast.Constant) \
+                            and isinstance(b2.value, (ast.Attribute, ast.Subscript, ast.Name)):
+                        alias[b2.targets[0].id] = b2.value     # loop-local alias of a container expression
+                        continue
+                    self.stmt(b2, sink, subst)
+            return
         if isinstance(s, ast.For):
             body = []
             inner_sub = dict(subst or {})
@@ -220,6 +237,17 @@ class Interp:
         s2 = Sub().visit(copy.deepcopy(s))
         ast.fix_missing_locations(s2)
         self.stmt(s2, sink)
+
+
+class _SubstNames(ast.NodeTransformer):
+    def __init__(self, mapping):
+        self.mapping = mapping
+
+    def visit_Name(self, n):
+        if isinstance(n.ctx, ast.Load) and n.id in self.mapping:
+            import copy
+            return copy.deepcopy(self.mapping[n.id])
+        return n
 
 
 def canon_var(text, var):
@@ -558,28 +586,49 @@ def check(repo, rep, tier):
 
     # ------------------------------------------------------------------ R-C10-3 numbering
     def alloc_key(fn_name, listname):
+        """key polynomial (in k = 1-based creation index) of the LC returned by the allocator; locals are evaluated
+        in statement order, `len(list)` meaning k after the append and k-1 before it"""
         f = m.functions.get(fn_name)
         if f is None:
             raise AnalysisError("%s not found" % fn_name)
-        app = [i for i, s in enumerate(f.node.body) if isinstance(s, ast.Expr) and isinstance(s.value, ast.Call)
-               and norm(s.value.func) == "%s.append" % listname]
-        ret = [i for i, s in enumerate(f.node.body) if isinstance(s, ast.Return)]
-        if not app or not ret:
-            return None, f, None
-        r = f.node.body[ret[0]].value
-        cidx = ret[0]
-        if isinstance(r, ast.Name):
-            for i, s_ in enumerate(f.node.body):
-                if isinstance(s_, ast.Assign) and norm(s_.targets[0]) == r.id:
-                    r, cidx = s_.value, i
-        stored = norm(f.node.body[app[0]].value.args[0]) if f.node.body[app[0]].value.args else None
-        if not (isinstance(r, ast.Call) and r.args and isinstance(r.args[0], ast.Dict) and len(r.args[0].keys) == 1):
-            return None, f, stored
-        k = P.sym("k")
-        lenv = k if app[0] < cidx else k - 1
-        key = poly_of(r.args[0].keys[0], {"len(%s)" % listname: lenv}, strict=True)
-        coef = int_literal(r.args[0].values[0])
-        return (key, coef), f, stored
+        k_ = P.sym("k")
+        appended = False
+        env = {}
+        stored = None
+        result = None
+        for st in f.node.body:
+            lenv = dict(env)
+            lenv["len(%s)" % listname] = k_ if appended else k_ - 1
+            if isinstance(st, ast.Expr) and isinstance(st.value, ast.Call) and norm(st.value.func) == "%s.append" % listname:
+                appended = True
+                stored = norm(st.value.args[0]) if st.value.args else None
+                continue
+            val = None
+            if isinstance(st, ast.Assign) and len(st.targets) == 1 and isinstance(st.targets[0], ast.Name):
+                val = st.value
+                name = st.targets[0].id
+            elif isinstance(st, ast.Return):
+                val = st.value
+                name = None
+            if val is None:
+                continue
+            if isinstance(val, ast.Name) and val.id in env and name is None:
+                result = env[val.id]
+                continue
+            if isinstance(val, ast.Call) and val.args and isinstance(val.args[0], ast.Dict) and len(val.args[0].keys) == 1:
+                key = poly_of(val.args[0].keys[0], lenv, strict=True)
+                coef = int_literal(val.args[0].values[0])
+                if name is None:
+                    result = (key, coef)
+                else:
+                    env[name] = (key, coef)
+                continue
+            pv = poly_of(val, lenv, strict=True)
+            if pv is not None and name is not None:
+                env[name] = pv
+        if isinstance(result, tuple) and result[0] is not None:
+            return result, f, stored
+        return None, f, stored
     k = P.sym("k")
     pub, fpub, spub = alloc_key("pubval", "pubvals")
     prv, fprv, sprv = alloc_key("privval", "privvals")
